@@ -369,7 +369,9 @@ func generate(c *ctx, r *vh.Rng) {
 		}
 		c.checkStream(items)
 	}
-	// 4. observations outside the property's quantifier (registered types only): recorded, not judged
+	// 4. histories: hidden shared state / aliasing between encodings and between decodings
+	genHistories(c, r)
+	// 5. observations outside the property's quantifier (registered types only): recorded, not judged
 	observeUnregistered(c, r)
 }
 
@@ -467,6 +469,8 @@ func runReplay(c *ctx, path string) {
 			items = append(items, item{s, fromRec(s, it.Rec)})
 		}
 		switch rc.Op {
+		case "history":
+			replayHistory(c, rc)
 		case "single":
 			c.checkSingle(items[0].s, items[0].o, vh.UnHex(rc.Rest))
 		case "stream":
